@@ -20,6 +20,8 @@ def bodies(F, fn):
     return [fn] + F.closures_of(fn)
 
 
+OWN_CONFIGS = True    # this module selects its feature configurations itself
+
 def run(ctx):
     ctx.rule('AGREE-C29a', 'both unlock siblings compare the plaintext size with header.original_size before Ok')
     ctx.rule('AGREE-C29b', 'same nonce derivation and chunk framing in lock_file_stream and unlock_file_stream')
